@@ -137,6 +137,7 @@ pub fn check(cx: &Cx, rep: &mut Report) {
             }
         }
     }
+    super::stop_starvation("C04", cx, rep);
     rep.nontrivial = nontrivial;
 }
 
